@@ -198,10 +198,46 @@ def find_sites(repo, res, targets):
     return sites
 
 
+def expand_kwstar(f, call):
+    """`g(**opts)` where the local `opts` is assigned once from dict(k=v, ...) or {"k": v, ...} with constant string
+    keys (and never stored into afterwards) is the same call with explicit keywords k=v"""
+    if not any(kw.arg is None for kw in call.keywords):
+        return call
+    new_kw = []
+    changed = False
+    for kw in call.keywords:
+        if kw.arg is None and isinstance(kw.value, ast.Name):
+            defs = _assignments(f, kw.value.id)
+            mutated = any(
+                isinstance(n, (ast.Assign, ast.AugAssign, ast.Delete)) and any(isinstance(t, ast.Subscript) and isinstance(t.value, ast.Name) and t.value.id == kw.value.id for t in (n.targets if isinstance(n, (ast.Assign, ast.Delete)) else [n.target]))
+                or (isinstance(n, ast.Call) and isinstance(n.func, ast.Attribute) and isinstance(n.func.value, ast.Name) and n.func.value.id == kw.value.id and n.func.attr in ("update", "pop", "setdefault", "clear", "popitem"))
+                for n in walk_local(f.node)
+            )
+            if len(defs) == 1 and defs[0] is not None and not mutated:
+                d = defs[0]
+                pairs = None
+                if isinstance(d, ast.Call) and isinstance(d.func, ast.Name) and d.func.id == "dict" and not d.args and all(k.arg is not None for k in d.keywords):
+                    pairs = [(k.arg, k.value) for k in d.keywords]
+                elif isinstance(d, ast.Dict) and d.keys and all(isinstance(const_value(k), str) for k in d.keys if k is not None) and all(k is not None for k in d.keys):
+                    pairs = [(const_value(k), v) for k, v in zip(d.keys, d.values)]
+                if pairs is not None:
+                    for k, v in pairs:
+                        new_kw.append(ast.keyword(arg=k, value=v))
+                    changed = True
+                    continue
+        new_kw.append(kw)
+    if not changed:
+        return call
+    out = ast.Call(func=call.func, args=list(call.args), keywords=new_kw)
+    ast.copy_location(out, call)
+    ast.fix_missing_locations(out)
+    return out
+
+
 # ------------------------------------------------------------------- the rules
 def check_site(chk, site, options):
     """E3-fwd / E3-complete at one call site; returns number of bindings checked"""
-    f, g, call = site.caller, site.callee, site.synth
+    f, g, call = site.caller, site.callee, expand_kwstar(site.caller, site.synth)
     where = f.key
     tag = "%s -> %s#%d" % (f.qual, g.qual, site.ordinal) + (" [via LazyCall]" if site.via == "LazyCall" else "")
     bound, extra, has_star, has_kwstar = bind_call(call, g)
@@ -626,7 +662,17 @@ def run(repo, chk, tier):
         )
     # source dicts of the two lists
     pre_call = repo.fn(a)
-    if a in srcs and norm_text(srcs[a]) != "self.kwargs":
+    def _through_alias(fn_, e):
+        for _ in range(3):
+            if isinstance(e, ast.Name):
+                ds = _assignments(fn_, e.id)
+                if len(ds) == 1 and ds[0] is not None:
+                    e = ds[0]
+                    continue
+            break
+        return e
+
+    if a in srcs and norm_text(_through_alias(pre_call, srcs[a])) != "self.kwargs":
         chk.violation("E3-list", a, "source", "options are copied from `%s`, not from self.kwargs" % norm_text(srcs[a]), file=PRE, line=pre_call.lineno)
     p4 = repo.fn(b)
     if b in srcs:
@@ -638,7 +684,7 @@ def run(repo, chk, tier):
     supplied = {}
     for s in sites:
         if s.caller is init and s.callee.key == PRE + "::create_preprocessor":
-            for kw in s.call.keywords:
+            for kw in expand_kwstar(init, s.call).keywords:
                 if kw.arg is not None:
                     supplied[kw.arg] = origin_name(init, kw.value)
     sup_opts = {k for k in supplied if k in options}
@@ -658,7 +704,7 @@ def run(repo, chk, tier):
     base = repo.fn(CAL + "::cal_angle_from_momentum_base")
     for n in walk_local(base.node):
         if isinstance(n, ast.Call) and isinstance(n.func, ast.Name) and n.func.id == "split_generator":
-            for x in n.args[1:]:
+            for x in list(n.args[1:]) + [kw.value for kw in n.keywords]:
                 if isinstance(x, ast.Name) and x.id in options:
                     consumers[x.id].append("%s: split_generator(.., %s)" % (base.qual, x.id))
     for o in sorted(options):
